@@ -16,7 +16,7 @@ EXPLANATION = (
     "ordering of archive (<=2) + population (<=2) and every capacity 0..3 leaves exactly the k best of everything "
     "shown; ElitistArchiveIntoPopulation appends exactly the elitists not already present (equality on solution and "
     "objective), each exactly once, in all presence patterns and for every repetition pattern of up to 3 elitists (an archive may hold equal individuals). (R4) template-level placement of the best-update is checked with the "
-    "template interpreter (see C16). (INIT) init() evaluated with every field of self a distinct symbol inserts exactly the state types of a reviewed table, under the component's own instantiation, each built from exactly the documented field or empty / zero. NOT decided: `reported best = minimum the objective returned during a run` as a "
+    "template interpreter (see C16). (INIT) init() evaluated with every field of self a distinct symbol inserts exactly the state types of a reviewed table, under the component's own instantiation, each built from exactly the documented field or empty / zero. (R7) two individuals are equal iff solution and objective are equal (what `already there` rests on). NOT decided: `reported best = minimum the objective returned during a run` as a "
     "number over whole runs.")
 ASSUMPTIONS = ["sort_unstable_by_key / min_by_key behave as documented"]
 
